@@ -55,7 +55,22 @@ def o_generate(rec: Recorder, case, soft=False):
     from passlib.totp import TOTP
 
     key, alg, digits, period, t = case["key"], case["alg"], case["digits"], case["period"], case["time"]
-    otp = TOTP(key=key, format="raw", alg=alg, digits=digits, period=period)
+    how = case.get("how", "ctor")
+    if how == "factory":
+        # the documented factory route: settings and clock fixed by TOTP.using(), instances made from the key alone
+        otp = TOTP.using(alg=alg, digits=digits, period=period, now=lambda: t + 0.25)(key=key, format="raw")
+        if (otp.alg, otp.digits, otp.period) != (alg, digits, period):
+            rec.fail("C13/factory-settings", "an object made by TOTP.using(alg=, digits=, period=) does not carry those settings", "generate", case, (otp.alg, otp.digits, otp.period), (alg, digits, period), soft=soft)
+            return
+        now_tok = otp.generate()  # no time given: the factory's clock
+        c0 = t // period
+        want = (R.totp(key, t, period, digits, alg), c0, (c0 + 1) * period - (t + 0.25), True)
+        got = (now_tok.token, now_tok.counter, now_tok.remaining, now_tok.valid)
+        if got[:2] != want[:2] or abs(got[2] - want[2]) > 1e-6 or got[3] is not True:
+            rec.fail("C13/factory-clock", "generate() without a time does not follow the factory's clock (token, counter, remaining, valid)", "generate", case, got, want, soft=soft)
+            return
+    else:
+        otp = TOTP(key=key, format="raw", alg=alg, digits=digits, period=period)
     tok = otp.generate(_time_value(case))
     exp = R.totp(key, t, period, digits, alg)
     if tok.token != exp:
@@ -92,6 +107,7 @@ def key_forms(key: bytes, deco):
     if sep:
         h = sep.join(h[i : i + 4] for i in range(0, len(h), 4))
     forms.append(("hex", h))
+    forms.append(("base16", h))  # documented alias of "hex"
     forms.append(("raw", key))
     if deco.get("as_bytes"):
         forms = [(f, x.encode() if isinstance(x, str) else x) for f, x in forms]
@@ -115,7 +131,7 @@ def o_key_forms(rec: Recorder, case, soft=False):
     if bytes.fromhex(otp.hex_key) != key or base64.b32decode(otp.base32_key + "=" * (-len(otp.base32_key) % 8)) != key:
         rec.fail("C13/key-render", "hex_key / base32_key do not decode back to the key", "key_forms", case, [otp.hex_key, otp.base32_key], key.hex(), soft=soft)
         return
-    for fmt in ("base32", "hex"):
+    for fmt in ("base32", "hex", "base16"):
         for sep in ("-", " ", False):
             txt = otp.pretty_key(format=fmt, sep=sep)
             if TOTP(key=txt, format=fmt).key != key:
@@ -175,7 +191,7 @@ def _cases():
         else:
             t = draw(st.integers(0, 1 << 40))
         kind = draw(st.sampled_from(["int", "int", "float", "naive", "aware"]))
-        case = {"key": key, "alg": alg, "digits": digits, "period": period, "time": t, "time_kind": kind, "time_class": tk}
+        case = {"key": key, "alg": alg, "digits": digits, "period": period, "time": t, "time_kind": kind, "time_class": tk, "how": draw(st.sampled_from(["ctor", "ctor", "factory"]))}
         if kind in ("naive", "aware"):
             case["time"] = t = min(t, 250_000_000_000)  # datetime range (year ~9890)
             if kind == "aware":
